@@ -541,6 +541,14 @@ def monitor_case(ops, obs, which):
                             V("C03", "addr-align", f"alloc<{A},{S}>: address misaligned by {o.get('am')} (within the alignment the arena guarantees)", i)
                             if fstate.get("truncated"):
                                 V("C18", "address-misaligned-after-truncate", f"alloc<{A},{S}> after a truncate: the address is {o.get('am')} past a multiple of the alignment the arena was configured to guarantee (the moved memory lost it)", i)
+                # C10: the free list is consulted only when fresh space cannot satisfy the request
+                try:
+                    st_ = (pal + A - 1) // A * A
+                    if need > 0 and bcap > 0 and boff < pal and al == pal and st_ + need <= cp and pal <= cp and not rewound \
+                       and kind in ("opt", "pess") and not op.startswith(("alloc_d", "alloc_z")):
+                        V("C10", "list-used-although-fresh-fits", f"{ops[i].strip()} was carved out of the free list at {boff} although fresh space [{st_},{st_+need}) below the capacity {cp} could satisfy it (cursor {pal})", i)
+                except (NameError, ZeroDivisionError):
+                    pass
                 if "pq" in o:
                     for p_ in ("C03", "C04", "C01"):
                         V(p_, "pointer-not-at-offset", f"{ops[i].strip()}: the handle reports offset {off} but its pointer is at arena offset {o['pq']}", i)
@@ -607,10 +615,14 @@ def monitor_case(ops, obs, which):
                         if need_ > 0 and start_ + need_ <= cp:
                             V("C04", "refused-although-fits", f"{ops[i].strip()} -> InsufficientSpace although [{start_},{start_+need_}) fits below the capacity {cp} (cursor {pal})", i)
                             V("C18", "refused-although-fits", f"{ops[i].strip()} -> InsufficientSpace although [{start_},{start_+need_}) fits below the capacity {cp} (cursor {pal})", i)
+                            V("C10", "refused-although-fits", f"{ops[i].strip()} -> InsufficientSpace although fresh space [{start_},{start_+need_}) can satisfy it (capacity {cp}, cursor {pal}): the free list is consulted only when fresh space cannot", i)
                     except (ValueError, IndexError):
                         pass
                 if (al, di, o.get("fl")) != (pal, pdi, prev.get("fl")):
                     V("C04", "error-changes-state", f"failed {ops[i].strip()} changed (al,di,fl) {(pal,pdi,prev.get('fl'))} -> {(al,di,o.get('fl'))}", i)
+                    if al == pal and di == pdi:
+                        for p_ in ("C20", "C10"):
+                            V(p_, "refused-request-drops-segment", f"failed {ops[i].strip()} changed the free list {prev.get('fl')} -> {o.get('fl')} with discarded() unchanged: the bytes are neither reusable nor counted", i)
                 # C10: failure policy
                 if r == "InsufficientSpace" and pfl and None not in pfl and not rewound and kind in ("opt", "pess"):
                     if op.startswith("alloc_bytes"):
@@ -623,6 +635,8 @@ def monitor_case(ops, obs, which):
                         req = int(t[3]) + int(t[2]) - 1
                     if req < U32 and max(s[1] for s in pfl) >= req and req > 0:
                         V("C10", "policy-fail", f"request {req} refused although segment {max(pfl, key=lambda s: s[1])} fits", i)
+                        if fstate.get("truncated"):
+                            V("C18", "policy-fail", f"after a truncate: request {req} refused although segment {max(pfl, key=lambda s: s[1])} fits", i)
         elif op in ("drop", "detach", "dealloc", "hold"):
             h = int(t[1])
             if op == "drop" and h not in live and r == "ok":
